@@ -29,7 +29,13 @@ def _teal_snapshot(ctx, teal):
     ident = {w.getattr(b, "idx"): id(b) for b in w.getattr(teal, "bbs")}
     owner = {w.getattr(b, "idx"): w.getattr(w.getattr(b, "subroutine"), "name") for b in w.getattr(teal, "bbs")}
     main = sorted(w.getattr(b, "idx") for b in w.getattr(w.getattr(teal, "main"), "blocks"))
-    return {"blocks": s, "subs": subs, "ident": ident, "owner": owner, "main": main, "n_ins": len(w.getattr(teal, "instructions"))}
+    # the contract's own caller / return-point tables (block objects, not only ids: a copy of a block is a different block)
+    callers = {n: [(w.getattr(b, "idx"), id(b)) for b in w.getattr(sub, "caller_blocks")] for n, sub in w.getattr(teal, "subroutines").items()}
+    rpoints = {n: [(w.getattr(b, "idx"), id(b)) for b in w.getattr(sub, "return_point_blocks")] for n, sub in w.getattr(teal, "subroutines").items()}
+    names = {n: w.getattr(sub, "name") for n, sub in w.getattr(teal, "subroutines").items()}
+    call_targets = {w.getattr(b, "idx"): id(w.getattr(b, "called_subroutine")) for b in w.getattr(teal, "bbs") if w.getattr(b, "is_callsub_block")}
+    return {"blocks": s, "subs": subs, "ident": ident, "owner": owner, "main": main, "n_ins": len(w.getattr(teal, "instructions")),
+            "callers": callers, "return points": rpoints, "subroutine names": names, "call targets": call_targets}
 
 
 def _stub_analysis(ctx):
